@@ -1,4 +1,5 @@
 import TracklibVerif.Model.ObsTime
+import TracklibVerif.Model.ObsTimeG
 /-! Model of linear resampling: tracklib/algo/interpolation.py (`prepareTimeSampling`,
 `__resampleTemporal`, `__resampleSpatial`, the `resample` dispatcher for `ALGO_LINEAR`, `sample`,
 `synchronize`), the front end `Track.resample` and the operators `//`, `**`, `*` of tracklib/core/track.py,
@@ -363,6 +364,26 @@ end
 def stampOf {α : Type} (ms : α → Int) (t : α) : Option TV.ObsTime.Stamp :=
   let m := ms t
   if m < 0 then none else some (TV.ObsTime.readUnixMs m.toNat)
+
+/-- the stamp an output observation carries, AS THE PYTHON COMPUTES IT: `ObsTime.readUnixTime(t)` on the float `t` handed to it by
+`__resampleTemporal` / `__resampleSpatial`, mirrored operation for operation by C03's scalar-polymorphic reader `readUnixG`
+(year loop on `elapsed - sec`, month loop, three truncated divisions, `ms = int(frac * 1000)`; `trunc` = Python's `int()`).
+At `Float` this is bit-exact with CPython (the driver's `f` stream emits it and the harness compares the seven fields exactly);
+over an ordered field with an exact `int()` it equals `stampOf` for every `t ≥ 0` (`TV.C05.stamp_is_readUnixTime`), so `stampOf`
+is a theorem about the mirrored code, not a definition of the stamp. `none` = the year loop ran out of fuel (NaN / infinity). -/
+def stampG {α : Type} [Add α] [Sub α] [Mul α] [Div α] [LT α] [DecidableLT α] [IntCast α]
+    (trunc : α → Int) (t : α) : Option TV.ObsTime.StampZ :=
+  TV.ObsTime.readUnixG trunc t
+
+/-- the timestamps of a SPATIALLY resampled track as the Python builds them: the first output is `track.getFirstObs().copy()` and
+carries the first fix's own `ObsTime` `s0` (it is not re-read by `readUnixTime`); every other output is stamped
+`ObsTime.readUnixTime(T)` of its interpolated time. (In doubles the two differ for some stamps — `readUnixTime(toAbsTime())` of a
+stamp with ms = 53 may read 52 —, which the exact comparison of the calendar fields found; in exact arithmetic they are the same
+stamp: `TV.C05.spatial_first_stamp_carried`.) -/
+def spatialStampsG {α : Type} [Add α] [Sub α] [Mul α] [Div α] [LT α] [DecidableLT α] [IntCast α]
+    (trunc : α → Int) (s0 : TV.ObsTime.StampZ) : List (Fix α) → List (Option TV.ObsTime.StampZ)
+  | [] => []
+  | _ :: rest => some s0 :: rest.map (fun p => stampG trunc p.t)
 
 /-- the stamps of a resampled track -/
 def stamps {α : Type} (ms : α → Int) (out : List (Fix α)) : List (Option TV.ObsTime.Stamp) :=
